@@ -5,7 +5,7 @@ import os, json, shutil, re, sys
 SRC = "/var/tmp/seedsrc"
 OUT = "/verif/seeded"
 conf = {}
-for f in ("/var/tmp/confirm_all.txt", "/var/tmp/confirm_all2.txt", "/var/tmp/confirm_all3.txt", "/var/tmp/confirm_all4.txt"):
+for f in ("/var/tmp/confirm_all.txt", "/var/tmp/confirm_all2.txt", "/var/tmp/confirm_all3.txt", "/var/tmp/confirm_all4.txt", "/var/tmp/confirm_all5.txt"):
     if os.path.exists(f):
         for line in open(f):
             m = re.match(r"(\S+) suite_with_change_rc=(\d+) failed_targets=(\d+) demo_with_change_rc=(\d+) demo_without_change_rc=(\d+)", line)
@@ -50,6 +50,12 @@ T = {  # id: (property, needs to manifest, demo features, caught by)
  "C17t": ("C17", "deprecated ask_blocking alias with Some(short timeout) and a slow handler: now honours the timeout", "-", "deductive: ask_blocking.alias_ignores_timeout"),
  "C18t": ("C18", "with deadlock-detection: the guard removes the callee's key, a completed A->B ask leaves its edge; a later B->A ask panics although no cycle exists", "deadlock-detection", "deductive (deadlock-detection feature sets): ask.relation; witness dd_no_residue reproduces"),
  "C20t": ("C20", "handle derived by downgrade -> ActorWeak::clone -> upgrade gets a fresh collector", "metrics", "deductive: actor_weak.clone.shares_collector (after the scratch-world rule for effects inside a pure-contracted fn; before: undecided)"),
+ "C01u": ("C01", "two sites: stop() waits at most 3 s for a slot (then Err), and the erased ActorControl::stop escalates an Err to kill(): stop through the trait object on a full mailbox behind a slow handler discards accepted work", "-", "deductive: stop.relation and erased.control.stop.same_relation (after adding Duration::from_secs to the shim; before: undecided); failing input found by the explorer (5 s handler schedule)"),
+ "C03u": ("C03", "two sites: on kill the loop answers queued asks with a sentinel box, and ask turns a failed downcast into unreachable!(): an ask queued at kill panics its caller instead of returning Err", "-", "deductive: framework.no_unexpected_panic (functions under contract may only panic where the contract says so); failing input found by the explorer"),
+ "C06u": ("C06", "two sites: the loop closes the control channel as soon as a kill is consumed, and kill() returns Err on Closed unless the mailbox is closed too: a second kill during a slow on_stop(true) fails", "-", "deductive: kill.relation (Ok for Ok/Full/Closed)"),
+ "C07u": ("C07", "two sites: the stop marker only closes the receiver and the loop drains, and stop() falls back to kill() when the mailbox is closed: a second stop() while buffered work drains ends the actor with killed=true", "-", "deductive: stop.relation and the lifecycle monitor"),
+ "C11u": ("C11", "two sites: ActorWeak::is_alive computed via upgrade + ActorRef::is_alive, and the erased WeakActorControl::upgrade gated on it: None after the actor ended although a strong ref is held", "-", "deductive: actor_weak.is_alive.iff_both_strong_counts_positive, erased.weak_control.upgrade.same_relation"),
+ "C13u": ("C13", "two sites: blocking_tell's helper thread calls tell_with_timeout (records Timeout/'tell'), and the dispatcher relabels + records again: two dead letters for one blocking timeout", "test-utils", "code not under contract -> always-on bounded scenario blocking_timeout (dead-letter delta)"),
  "C20": ("C20", "handler panics / task aborted while the handler is suspended: inline timing after the handler instead of the RAII guard loses the count", "metrics", "deductive: lifecycle.inv.metrics_guard_closed (guard must be opened before the handler)"),
 }
 os.makedirs(OUT, exist_ok=True)
